@@ -2,7 +2,7 @@
     C19 (refusal), soundness of the completion generator, C03 (feasible packing of exactly
     the non-zero items, no empty bin), C04 partial (never worse than best-fit-decreasing,
     never below the optimum, optimal when the volume bound is met; full optimality is
-    refuted by a witness), C06 (sums-only run). *)
+    proved in Proofs/BCOptimalProofs.v: bc_optimal), C06 (sums-only run). *)
 From Prtpy Require Import Base.Prelude Model.Binner Model.Packing Model.CG Model.BinCompletion
   Spec.Partition Proofs.BaseLemmas Proofs.BinnerLemmas Proofs.PackingProofs Proofs.CoveringProofs.
 From Coq Require Import ZifyBool.
